@@ -202,3 +202,17 @@ Theorem C19_growing_map_keeps_values : forall rs a x,
   end.
 Proof. exact add_reg_reads. Qed.
 Print Assumptions C19_growing_map_keeps_values.
+
+(* ---------- short length ----------
+   a read response whose payload is shorter than the byte count it announces (for registers: than the whole registers
+   of that count) is rejected, whatever else it holds — the clause "frames with … short length … are rejected" at the
+   level of the response PDU, where neither the RTU checksum nor the MBAP header can see it (Modbus/ShortProofs.v).
+   The sessions of the check truncate TCP responses behind the header and require the call to fail (s_short_read). *)
+From Verif Require Import Modbus.ShortProofs.
+Theorem C19_short_read_rejected :
+  (forall fc n rest, (fc = 3 \/ fc = 4) -> n < 256 -> len rest < 2 * (n / 2) -> resp_read_regs (fc, n :: rest) = Err 7)%N /\
+  (forall fc, resp_read_regs (fc, []) = Err 7)%N /\
+  (forall fc count n rest, (fc = 1 \/ fc = 2) -> len rest < n -> resp_read_bits_count (fc, n :: rest) count = Err 7)%N /\
+  (forall fc count, (fc = 1 \/ fc = 2) -> resp_read_bits_count (fc, []) count = Err 7)%N.
+Proof. exact (conj short_regs_rejected (conj empty_regs_rejected (conj short_bits_rejected empty_bits_rejected))). Qed.
+Print Assumptions C19_short_read_rejected.
